@@ -53,10 +53,43 @@ impl NodeProcessor for Processor {
                 .take_method()
                 .expect("method name is expected to exist");
 
-            *call.mutate_prefix() = FieldExpression::new(new_prefix.clone(), method_name).into();
-            call.mutate_arguments()
-                .insert(0, Expression::from(new_prefix));
+            // the copy passed as `self` must not repeat the comments and line breaks attached
+            // to the prefix
+            let mut self_argument = Expression::from(new_prefix.clone());
+            clear_trivia(&mut self_argument);
+
+            *call.mutate_prefix() = FieldExpression::new(new_prefix, method_name).into();
+            call.mutate_arguments().insert(0, self_argument);
         }
+    }
+}
+
+fn clear_trivia(expression: &mut Expression) {
+    match expression {
+        Expression::Identifier(identifier) => {
+            identifier.clear_comments();
+            identifier.clear_whitespaces();
+        }
+        Expression::Number(number) => {
+            number.clear_comments();
+            number.clear_whitespaces();
+        }
+        Expression::String(string) => {
+            string.clear_comments();
+            string.clear_whitespaces();
+        }
+        Expression::Parenthese(parenthese) => {
+            parenthese.clear_comments();
+            parenthese.clear_whitespaces();
+            clear_trivia(parenthese.mutate_inner_expression());
+        }
+        Expression::Nil(Some(token))
+        | Expression::True(Some(token))
+        | Expression::False(Some(token)) => {
+            token.clear_comments();
+            token.clear_whitespaces();
+        }
+        _ => {}
     }
 }
 
